@@ -99,7 +99,7 @@ def run(ctx):
     ar = push.fn
     ctx.touch(ar, len(ar.blocks))
     ctx.ok('WMC-C06a', ar, 'the single push into toc.frames', line=push.line)
-    ctx.floor('WMC-C06a:uses', n_uses, 5, '&mut uses of toc.frames')
+    ctx.floor('WMC-C06a:uses', n_uses, 2, '&mut uses of toc.frames')
     # ---- C06b
     sl = lib.slice_back(ar, [push.args[1]], through_calls=False)
     frame_aggs = [s for bb, i, s in ar.stmts() if s['rv']['k'] == 'agg' and s['rv'].get('adt') == 'Frame' and s['lhs']['l'] in sl.locals]
@@ -187,7 +187,7 @@ def run(ctx):
                     ctx.ok('MPT-C06c', f, 'pending_frame_inserts reset to 0 after apply_records materialised the inserts', line=st['line'])
                 else:
                     ctx.bad('MPT-C06c', f, 'pending_frame_inserts is set to a constant without apply_records having run', line=st['line'], detail='counter-reset')
-    ctx.floor('MPT-C06c:resets', n_reset, 3, 'resets of pending_frame_inserts')
+    ctx.floor('MPT-C06c:resets', n_reset, 2, 'resets of pending_frame_inserts')
     nf = ctx.need('MPT-C06c', 'Memvid::next_frame_id')
     if nf is not None:
         ctx.touch(nf, len(nf.blocks))
